@@ -182,7 +182,7 @@ def _skeleton(prog):
     return out
 
 
-N = {"quick": 500, "thorough": 4000}
+N = {"quick": 1000, "thorough": 6000}
 
 
 def shard_plan(tier):
